@@ -1306,3 +1306,62 @@ func TestGovcReplay(t *testing.T) {
 		},
 	})
 }
+
+func init() {
+	harnesses = append(harnesses, &harness{
+		name:      "TLS context manager replay (SDS context followed by a static context; configuration kept by the SDS provider)",
+		modelFree: true,
+		match: func(o *Obligation) bool {
+			return strings.Contains(o.Func, "mtls.NewTLSServerContextManager")
+		},
+		run: func(eng *Engine, o *Obligation) *ReplayOutcome {
+			src := `package mtls
+
+import (
+	"fmt"
+	"testing"
+
+	v2 "mosn.io/mosn/pkg/config/v2"
+)
+
+// The failed obligation says: two TLS contexts of a listener may be built from one shared configuration variable.
+// Replay: a listener with an SDS context (verify_client, require_client_cert, its own server name) followed by a
+// static one; then read back the configuration the SDS provider kept for the moment its secrets arrive.
+func TestGovcReplay(t *testing.T) {
+	resetTest()
+	sdsCfg := createSdsTLSConfig() // verify_client: true, SDS certificate
+	sdsCfg.ServerName = "sds.example"
+	sdsCfg.RequireClientCert = true
+	info := &certInfo{CommonName: "static", Curve: "RSA"}
+	secret, err := info.CreateSecret()
+	if err != nil {
+		t.Fatal(err)
+	}
+	static := v2.TLSConfig{Status: true, ServerName: "static.example", CACert: secret.Validation, CertChain: secret.Certificate, PrivateKey: secret.PrivateKey}
+	lc := &v2.Listener{}
+	lc.Name = "govc"
+	lc.FilterChains = []v2.FilterChain{{TLSContexts: []v2.TLSConfig{*sdsCfg, static}}}
+	m, err := NewTLSServerContextManager(lc)
+	if err != nil {
+		t.Fatal(err)
+	}
+	mng := m.(*serverContextManager)
+	for i, p := range mng.providers {
+		sp, ok := p.(*sdsProvider)
+		if !ok {
+			continue
+		}
+		cfg := sp.config.Load().(*v2.TLSConfig)
+		if cfg.ServerName != "sds.example" || !cfg.VerifyClient || !cfg.RequireClientCert {
+			fmt.Printf("REPLAY-CONFIRMED provider %d (SDS context configured with server_name sds.example, verify_client, require_client_cert) keeps a config that now reads server_name=%q verify_client=%v require_client_cert=%v: it shares the loop variable with the next context\n", i, cfg.ServerName, cfg.VerifyClient, cfg.RequireClientCert)
+			return
+		}
+	}
+	fmt.Println("REPLAY-NOT-REPRODUCED", len(mng.providers))
+}
+`
+			out, _ := runOverlayTest("pkg/mtls", src, "^TestGovcReplay$")
+			return outcomeFromOutput(src, out)
+		},
+	})
+}
